@@ -178,29 +178,6 @@ def defOf (i : Nat) : Sexp → Option Def
     defOf5 i p as q e s cs ps fs
   | _ => none
 
-/-- the universe restriction on member functions: `equality` / `serialization` name no function of the chain (name clashes
-    between functions and attributes ARE inside the model: OVERRIDE_MEMBER_MISMATCH, MEMBER_NAME_CONFLICT).  `chain i` = the
-    attribute / constant names and the function names of definition `i` and its ancestors. -/
-def chainNames (ds : List Def) : Nat → Nat → List String × List String
-  | 0, _ => ([], [])
-  | fuel + 1, i =>
-    match ds[i]? with
-    | none => ([], [])
-    | some d =>
-      let (pa, pf) := match d.parent with
-        | some j => if j < i then chainNames ds fuel j else ([], [])
-        | none => ([], [])
-      (d.attrs.map (·.name) ++ d.constants.map (·.1) ++ pa, d.funcs.map (·.name) ++ pf)
-
-def fnNamesOK (ds : List Def) : Bool :=
-  (List.range ds.length).all fun i =>
-    let (_, fs) := chainNames ds (ds.length + 1) i
-    match ds[i]? with
-    | none => true
-    | some d =>
-      !((d.equality.toList?.getD []).any (fun n => fs.contains n)) &&
-      !((d.serialization.getD []).any (fun n => fs.contains n))
-
 def defsOf : Nat → List Sexp → Option (List Def)
   | _, [] => some []
   | i, e :: es => do
@@ -352,7 +329,7 @@ def exec : List Sexp → String
   | [.atom "obj", .list ds, .list as] =>
     match defsOf 0 ds, as.mapM actionOf with
     | some defs, some acts =>
-      if defs.isEmpty || !fnNamesOK defs then "bad-op" else
+      if defs.isEmpty then "bad-op" else
       let (rs, env) := runDefs [] defs
       let head := "def " ++ " ".intercalate rs
       match env with
